@@ -4,13 +4,17 @@
 (*   - the line separator of a file is CRLF if it occurs anywhere, else CR *)
 (*     if it occurs, else LF; the text is split on it and joined with it   *)
 (*   - per configured pattern and per line the LEFTMOST match counts; a    *)
-(*     match that touches or overlaps a match found earlier (patterns in   *)
-(*     configuration order, lines top down) is suppressed                  *)
+(*     match that overlaps (shares a code point with) a match found        *)
+(*     earlier (patterns in configuration order, lines top down) is        *)
+(*     suppressed: it is the same place                                    *)
 (*   - every configured pattern must be found somewhere in the file        *)
 (*   - every kept match is replaced by the new version rendered through    *)
 (*     its pattern; nothing else changes                                   *)
 (* Deviation s2 (repaired: off): each replacement was built from the OLD   *)
 (* line, so of several matches on one line only the last one survived.     *)
+(* Deviation s20 (repaired: off): a match that merely TOUCHED an earlier    *)
+(* one (end of one = start of the other) was suppressed as well, and that  *)
+(* occurrence stayed stale.                                                *)
 (***************************************************************************)
 EXTENDS BVVersion
 
@@ -30,9 +34,9 @@ Candidates(lines, pats) ==
       LinesOf(k, i) == IF i > Len(lines) THEN <<>> ELSE one(k, i) \o LinesOf(k, i + 1)
       Pats(k) == IF k > Len(pats) THEN <<>> ELSE LinesOf(k, 1) \o Pats(k + 1)
   IN Pats(1)
-\* a candidate is dropped if it touches or overlaps any EARLIER candidate of its line (dropped ones included)
-Overlaps(a, b) == a.line = b.line /\ a.start <= b.end /\ a.end >= b.start
-Kept(cs) == LET marked == [q \in 1..Len(cs) |-> [c |-> cs[q], keep |-> ~\E r \in 1..(q-1) : Overlaps(cs[q], cs[r])]]
+\* a candidate is dropped if it overlaps any EARLIER candidate of its line (dropped ones included); spans are 0-based, end exclusive
+Overlaps(a, b, touch) == a.line = b.line /\ (IF touch THEN a.start <= b.end /\ a.end >= b.start ELSE a.start < b.end /\ a.end > b.start)
+Kept(cs, touch) == LET marked == [q \in 1..Len(cs) |-> [c |-> cs[q], keep |-> ~\E r \in 1..(q-1) : Overlaps(cs[q], cs[r], touch)]]
                 sel == SelectSeq(marked, LAMBDA x : x.keep)
             IN [q \in 1..Len(sel) |-> sel[q].c]
 KeptOfLine(kept, i) == SelectSeq(kept, LAMBDA c : c.line = i)
@@ -48,12 +52,13 @@ ReplaceLineLastWins(line, ms, texts) ==
   IF ms = <<>> THEN line ELSE LET m == ms[Len(ms)] IN SubSeq(line, 1, m.start) \o texts[m.pat] \o SubSeq(line, m.end + 1, Len(line))
 
 NoPatternMatch(missing) == [ok |-> FALSE, missing |-> missing]
-Rewrite(text, pats, v, s2) ==
+\* dv: the deviations in force, a record with the fields s2 and s20
+Rewrite(text, pats, v, dv) ==
   LET sep == LineSep(text) lines == SplitBy(text, sep)
-      kept == Kept(Candidates(lines, pats))
+      kept == Kept(Candidates(lines, pats), dv.s20)
       found == {kept[q].pat : q \in 1..Len(kept)}
       texts == [k \in 1..Len(pats) |-> Render(v, pats[k])]
-      newLines == [i \in 1..Len(lines) |-> IF s2 THEN ReplaceLineLastWins(lines[i], KeptOfLine(kept, i), texts)
+      newLines == [i \in 1..Len(lines) |-> IF dv.s2 THEN ReplaceLineLastWins(lines[i], KeptOfLine(kept, i), texts)
                                             ELSE ReplaceLine(lines[i], KeptOfLine(kept, i), texts)]
   IN IF found # 1..Len(pats) THEN NoPatternMatch((1..Len(pats)) \ found)
      ELSE [ok |-> TRUE, text |-> Join(newLines, sep), kept |-> kept, texts |-> texts]
@@ -90,7 +95,7 @@ AllOccurrencesUpdated(oldLine, newLine, ms, texts) ==
 
 \* verdict on a recorded rewrite of one file: "ok" or the failing clause
 RewriteClause(old, new, pats, v) ==
-  LET r == Rewrite(old, pats, v, Dev.s2) IN
+  LET r == Rewrite(old, pats, v, Dev) IN
   IF ~r.ok THEN "no-match-accepted"
   ELSE IF new = r.text THEN "ok"
   ELSE LET sep == LineSep(old) ol == SplitBy(old, sep) nl == SplitBy(new, sep) IN
